@@ -9,6 +9,18 @@ H3 events) is replayed through `Pool.step`; an event the model does not allow at
 disagreement between model and code and is reported with its index (`REJECT@i:token`).
 The verdict's `model` field is the same summary computed from the model's end state; `spec` judges
 the implementation's summary alone (`PoolSpec.Summary.ok`).
+
+Scripts OUTSIDE the model: the transition system (and every theorem about it) describes ONE run of the pool, `start` is
+enabled only in `created`. A script that starts the pool more than once, or stops it more than once, is not replayed
+through the model (worker ids are reused by every run, so its log is not a word over `Label`): the verdict carries no
+model comparison (`model := impl`) and the case is judged by the executable spec alone — `Summary.ok` with N workers
+per start on the implementation's summary and `LogCounts.ok` on counts read off its event log. The same holds for a
+script whose log was not kept (`-`, more than 5 000 tasks): summary alone.
+
+A REPLAYED case (`./check C08 --replay`) carries the event log of the replay run behind its summary (`…|relog=<log>`):
+the stored log field belongs to the run that was recorded, so the replay's own log is the one that is judged.
+
+Task letters may carry a repeat count (`e1000`); `runs=` is run-length encoded (`1x1000`) above 64 tasks.
 -/
 namespace Humphrey.Driver.C08
 open Humphrey Humphrey.Driver Humphrey.Pool
@@ -99,23 +111,69 @@ def replay (c : Cfg) : RS → Nat → List String → Except String RS
 
 def countChar (s : String) (p : Char → Bool) : Nat := (s.toList.filter p).length
 
-/-- `q`, `r`, `s` are `p` with another panic payload (literal message, formatted message, non-string value); `M` / `m`
-in a script register a monitor and are no pool operation. -/
+/-- `q`, `r`, `s` are `p` with another panic payload (literal message, formatted message, non-string value); `h` / `x` are
+held until the caller opens the gate, then return / panic; `M` / `m` in a script register a monitor and are no pool
+operation. -/
 def isTaskLetter (ch : Char) : Bool :=
-  ch == 'e' || ch == 'p' || ch == 'q' || ch == 'r' || ch == 's' || ch == 'b'
+  ch == 'e' || ch == 'p' || ch == 'q' || ch == 'r' || ch == 's' || ch == 'b' || ch == 'h' || ch == 'x'
+
+/-- Number of task submissions in a script: a task letter counts once, or as often as the decimal number behind it
+says. State: (total, current letter is a task letter, digits read so far for it). -/
+def taskCount (script : String) : Nat :=
+  let close (st : Nat × Bool × Option Nat) : Nat :=
+    match st with
+    | (tot, true, none) => tot + 1
+    | (tot, true, some k) => tot + k
+    | (tot, false, _) => tot
+  close (script.toList.foldl (fun st ch =>
+    if ch.isDigit then
+      let d := ch.toNat - '0'.toNat
+      match st with
+      | (tot, t, none) => (tot, t, some d)
+      | (tot, t, some k) => (tot, t, some (k * 10 + d))
+    else (close st, isTaskLetter ch, none)) (0, false, none))
+
+def rle : List Nat → List (Nat × Nat) → List (Nat × Nat)
+  | [], acc => acc.reverse
+  | x :: xs, (y, k) :: acc => if x == y then rle xs ((y, k + 1) :: acc) else rle xs ((x, 1) :: (y, k) :: acc)
+  | x :: xs, [] => rle xs [(x, 1)]
+
+/-- `runs=` field: plain up to 64 tasks, run-length encoded above. -/
+def runsField (runs : List Nat) : String :=
+  if runs.length > 64 then ",".intercalate ((rle runs []).map fun (v, k) => s!"{v}x{k}")
+  else ",".intercalate (runs.map toString)
+
+/-- How often each of the first `n` task ids occurs in `xs`, in one pass per 4096 ids (the lists are long). -/
+def countsUpTo (n : Nat) (xs : List Nat) : List Nat :=
+  let arr := xs.foldl (fun (a : Array Nat) k => if k < a.size then a.modify k (· + 1) else a) (Array.replicate n 0)
+  arr.toList
 
 /-- The summary in the harness's format, read off the model's end state. -/
 def modelSummary (c : Cfg) (script : String) (r : RS) : String :=
   let s := r.s
-  let runs := (List.range s.submitted.length).map fun k => toString (s.started.count k)
+  let runs := countsUpTo s.submitted.length s.started
   let hasBarrier := script.toList.contains 'b'
   let barrier := if !hasBarrier then "na" else if r.maxRun == c.n then "ok" else "notreached"
   let caller := if s.caller == .done then "returned" else "indrop"
-  let base := s!"runs={",".intercalate runs};exited={exitedCount s.workers};caller={caller};barrier={barrier};stoppanic={if r.stopPanicked then 1 else 0}"
+  let base := s!"runs={runsField runs};exited={exitedCount s.workers};caller={caller};barrier={barrier};stoppanic={if r.stopPanicked then 1 else 0}"
+  -- a settle point `W` waits for the recovery of every panic: `panic_recovery_restores` (plus fairness) says it comes
+  let base := if script.toList.contains 'W' then base ++ ";settle=ok" else base
   -- end-state predicates on the model side: nothing can move any more and every task is accounted for
-  let done := s.submitted.all fun k => s.finished.contains k || s.panicked.contains k
+  let doneCounts := countsUpTo s.submitted.length (s.finished ++ s.panicked)
+  let done := doneCounts.all (· ≥ 1)
   let base := if terminalB c s then base else base ++ ";model-not-terminal"
   if done then base else base ++ ";model-tasks-left"
+
+def parseRuns (runs : String) : Option (List Nat) :=
+  if runs.isEmpty then some []
+  else
+    (runs.splitOn ",").foldlM (fun (acc : List Nat) f =>
+      match f.splitOn "x" with
+      | [a] => a.toNat?.map fun v => acc ++ [v]
+      | [a, b] => match a.toNat?, b.toNat? with
+        | some v, some k => some (acc ++ List.replicate k v)
+        | _, _ => none
+      | _ => none) []
 
 def parseSummary (impl : String) : Option PoolSpec.Summary :=
   if impl == "WEDGED" then some { wedged := true, runs := [], exited := 0, barrierTimeout := false }
@@ -125,15 +183,33 @@ def parseSummary (impl : String) : Option PoolSpec.Summary :=
       | _ => ("", "")
     match kv.lookup "runs", kv.lookup "exited", kv.lookup "caller", kv.lookup "barrier" with
     | some runs, some ex, some "returned", some bar =>
-      let rs := if runs.isEmpty then some [] else (runs.splitOn ",").mapM String.toNat?
-      match rs, ex.toNat? with
-      | some rs, some e => some { wedged := false, runs := rs, exited := e, barrierTimeout := bar == "timeout" }
+      match parseRuns runs, ex.toNat? with
+      | some rs, some e => some { wedged := false, runs := rs, exited := e, barrierTimeout := bar == "timeout",
+                                  settleTimeout := kv.lookup "settle" == some "timeout" }
       | _, _ => none
     | _, _, _, _ => none
 
+/-- Counts that can be read off a log whatever run a worker id belongs to (`PoolSpec.LogCounts`). -/
+def logCounts (toks : List String) : PoolSpec.LogCounts :=
+  toks.foldl (fun (l : PoolSpec.LogCounts) t =>
+    match t.toList with
+    | 'b' :: rest => match pairOf rest with
+      | some (k, _) => { l with bodies := k :: l.bodies }
+      | none => l
+    | 'p' :: _ => { l with unwound := l.unwound + 1 }
+    | 'm' :: _ => { l with markers := l.markers + 1 }
+    | 'P' :: _ => { l with respawns := l.respawns + 1 }
+    | 'x' :: _ => { l with exits := l.exits + 1 }
+    | 'S' :: _ => { l with starts := l.starts + 1 }
+    | _ => l) { bodies := [], unwound := 0, markers := 0, respawns := 0, exits := 0, starts := 0 }
+
 def dispatch (fn : String) (args : List String) (impl : String) : Option Verdict :=
   match fn, args with
-  | "pool", [n, script, panics, log] =>
+  | "pool", [n, script, panics, log0] =>
+    -- a replayed case carries the log of the replay run behind its summary; that log is the one to judge
+    let (impl1, log, wrap) := match impl.splitOn "|relog=" with
+      | [a, b] => (a, b, fun (m : String) => m ++ "|relog=" ++ b)
+      | _ => (impl, log0, fun (m : String) => m)
     match n.toNat? with
     | none => some { model := "BADARGS" }
     | some n =>
@@ -141,16 +217,31 @@ def dispatch (fn : String) (args : List String) (impl : String) : Option Verdict
       match ids with
       | none => some { model := "BADARGS" }
       | some ids =>
-        let c : Cfg := { n := n, panics := fun k => ids.contains k }
-        let toks := (log.splitOn " ").filter (fun t => !t.isEmpty)
-        let tasks := countChar script isTaskLetter
-        let workers := if script.toList.contains 'S' then n else 0
-        let spec := match parseSummary impl with
-          | some s => some (s.ok tasks workers)
-          | none => some false
-        match replay c {} 0 toks with
-        | .error e => some { model := e, spec := spec }
-        | .ok r => some { model := modelSummary c script r, spec := spec }
+        let tasks := taskCount script
+        let starts := countChar script (· == 'S')
+        let stops := countChar script (· == 'T')
+        let workers := n * starts
+        let (spec, reason) := match parseSummary impl1 with
+          | some s => (s.ok tasks workers, s.failed tasks workers)
+          | none => (false, if impl1 == "CHILD-DIED" then "process-died" else "unreadable-summary")
+        if log == "-" then
+          -- the log was not kept: no model comparison, summary alone
+          some { model := impl, spec := some spec, reason := reason }
+        else
+          let toks := (log.splitOn " ").filter (fun t => !t.isEmpty)
+          if starts > 1 || stops > 1 then
+            -- outside the model (see the header): executable spec on the implementation's summary and log counts
+            let lc := logCounts toks
+            let lok := lc.ok n tasks ids.length && lc.starts == starts
+            let reason := if !spec then reason else if !lok then "log-counts" else ""
+            some { model := impl, spec := some (spec && lok), reason := reason }
+          else
+            -- membership in the panicking set: the ids are ascending, an array of flags makes the test O(1)
+            let flags := ids.foldl (fun (a : Array Bool) k => if k < a.size then a.set! k true else a) (Array.replicate tasks false)
+            let c : Cfg := { n := n, panics := fun k => flags.getD k false }
+            match replay c {} 0 toks with
+            | .error e => some { model := wrap e, spec := some spec, reason := reason }
+            | .ok r => some { model := wrap (modelSummary c script r), spec := some spec, reason := reason }
   | _, _ => none
 
 end Humphrey.Driver.C08
